@@ -23,9 +23,27 @@ fn usage() -> ! {
 
 fn main() {
     let args: Vec<String> = std::env::args().collect();
+    if args.get(1).map(String::as_str) == Some("roundtrip") {
+        obs::trlog::install();
+    }
     match args.get(1).map(String::as_str) {
         Some("run") => run(&args[2..]),
         Some("merge-digests") => merge(&args[2..]),
+        Some("roundtrip") => {
+            // triage helper: print encode(decode(file)) and what the decoder says about it
+            let bytes = std::fs::read(&args[2]).expect("read");
+            let mut m: rosu_map::Beatmap = rosu_map::from_bytes(&bytes).expect("decode");
+            println!("objects {} timing {} difficulty {} effect {} sample {}", m.hit_objects.len(), m.control_points.timing_points.len(),
+                m.control_points.difficulty_points.len(), m.control_points.effect_points.len(), m.control_points.sample_points.len());
+            let enc = m.encode_to_string().expect("encode");
+            println!("{enc}");
+            let m2: rosu_map::Beatmap = rosu_map::from_str(&enc).expect("decode2");
+            println!("objects {} timing {} difficulty {} effect {} sample {}", m2.hit_objects.len(), m2.control_points.timing_points.len(),
+                m2.control_points.difficulty_points.len(), m2.control_points.effect_points.len(), m2.control_points.sample_points.len());
+            for ev in obs::trlog::take() {
+                println!("EVENT {ev}");
+            }
+        }
         Some("features") => {
             println!(
                 "tracing={} debug_assertions={}",
